@@ -28,7 +28,7 @@ impl Property for C14 {
         }
     }
     fn rule(&self) -> &'static str {
-        "one case = an arrangement of 2-4 project directories (names drawn from a small pool so that clashes are frequent, missing or syntactically invalid names, imports forming trees, diamonds, cycles and self-imports, import keys that do or do not match the imported project's name, unknown keys) + one request, executed under 8 different seeded hash orders (std RandomState keys come from the interposed getrandom) with the FIFO schedule. A few arrangements carry one document the documented schema excludes (empty target body, two kinds at once, unknown keys, target or project names outside `\\w[-\\w]*` including ones that only start validly), which must be rejected; every 12th case builds a valid two-project tree (recorded state exists), then breaks a reference so that only resolution can notice and runs `--clean` / `--clean top` / `top`: the refusal must leave the tree byte-identical; every 400th case is one valid project with a dependency chain of 12 000 or 4 000 targets (`--clean`, which resolves every target). Oracle: no run panics or aborts; the verdict (accepted / rejected before anything runs) and the multiset of scripts started are identical for all 8 hash orders. distinct_nontrivial = distinct (arrangement hash) among cases that load at least two projects"
+        "one case = an arrangement of 2-4 project directories (names drawn from a small pool so that clashes are frequent, missing or syntactically invalid names, imports forming trees, diamonds, cycles and self-imports, import keys that do or do not match the imported project's name, unknown keys) + one request, executed under 8 different seeded hash orders (std RandomState keys come from the interposed getrandom) with the FIFO schedule. A few arrangements carry one document the documented schema excludes (empty target body, two kinds at once, unknown keys, target or project names outside `\\w[-\\w]*` including ones that only start validly; a third of these documents carry 64 KiB of comment lines before the offending part), which must be rejected; every 12th case builds a valid two-project tree (recorded state exists), then breaks a reference so that only resolution can notice and runs `--clean` / `--clean top` / `top`: the refusal must leave the tree byte-identical; every 400th case is one valid project with a dependency chain of 12 000 or 4 000 targets (`--clean`, which resolves every target). Oracle: no run panics or aborts; the verdict (accepted / rejected before anything runs) and the multiset of scripts started are identical for all 8 hash orders. distinct_nontrivial = distinct (arrangement hash) among cases that load at least two projects"
     }
     fn assumptions(&self) -> Vec<&'static str> {
         vec!["only the schedule-free determinism and no-abort half of C14 is decided here; totality over arbitrary byte strings and strictness of the schema are input-space claims left to fuzzing (DESIGN.md §7 C14)"]
